@@ -4,7 +4,9 @@ import vlib
 
 PID = "C11"
 REWRITES = [("pkg/station/lib/registration_config.go", ["-swap", "net=vnet"]),
-            ("pkg/station/lib/registration_ingest.go", ["-swap", "net/http=vhttp", "-go"])]
+            ("pkg/station/lib/registration_ingest.go", ["-swap", "net/http=vhttp", "-go"]),
+            # the DNS responder handles every datagram in a goroutine of its own: run inline so that a panic there is seen
+            ("pkg/registrars/dns-registrar/responder/responder.go", ["-go"])]
 INJECTS = [("harness/libacc/lib_verif.go", "pkg/station/lib/zz_verif_acc.go"),
            ("harness/c11/regprocessor_verif.go", "pkg/regserver/regprocessor/zz_verif_c11.go"),
            ("harness/c11/apiregserver_verif.go", "pkg/regserver/apiregserver/zz_verif_c11.go"),
